@@ -8,6 +8,7 @@ From WG Require Import BV.Model.
 From WG Require Import BV.RefSel.
 From WG Require Import BV.Bits.
 From WG Require Import Par.Splice.
+From WG Require Import Par.LabelStore.
 From WG Require Import Flags.Props.
 
 Extraction Language OCaml.
@@ -56,4 +57,20 @@ Extraction "model.ml"
   representable
   java_from_props
   version
+  ser_enc
+  ser_dec
+  ser_valid
+  ser_ok
+  labels_valid
+  lab_seq
+  comp_labeled
+  par_comp_labeled
+  lab_read_seq
+  lab_read_ra_all
+  lab_ef
+  read_zip_seq
+  read_zip_ra
+  zip_nodes
+  labs
+  succs
 .
